@@ -76,6 +76,7 @@ partial def exprOfJson (j : Json) : Expr :=
       | "lt" => .lt a b
       | "and" => .and a b
       | "or" => .or a b
+      | "div" => .div a b
       | _ => .add a b
   | _ => .lit .null
 
